@@ -267,6 +267,11 @@ func gen(c *rig.Check, idx int) sched {
 					h.Exp = p64(pickExp(r, 61))
 				}
 			}
+			if claimers[0].Index != "key" && (h.Kind == "set" || h.Exp != nil) && r.IntN(4) != 0 {
+				// on the expiry index a holder that rewrites X's expiry does not pin X to the head of
+				// the index (see the oracle); mostly use one that does
+				h = op{Keys: []string{xk}, Force: "guard", Kind: []string{"del", "sbk", "patch"}[r.IntN(3)], St: "run"}
+			}
 			guardMuts = append(guardMuts, h)
 			for _, rc := range s.Recs {
 				if rc.Key != xk && matchesInitially(&claimers[0], rc) {
